@@ -1,6 +1,7 @@
 """C14 — cloning a shape yields a self-contained copy and leaves the source untouched (DESIGN §5 C14)."""
 from facts import is_node, walk, where, show
 import flow
+import c11
 
 NIF = "nifly::NifFile"
 STD_MUT = {"resize", "clear", "push_back", "emplace_back", "erase", "insert", "pop_back", "assign", "swap", "reserve", "append",
@@ -328,6 +329,50 @@ def run(F, chk):
                           "a clone of %s is registered in the destination under another type: %s %s — the destination saves and "
                           "reloads the clone as a block of that other type" % (cls, cls, why))
     chk.floor(R5, 290)
+
+    # ---------------------------------------------------------------- R14.6
+    R6 = chk.rule("R14.6", "a reference array that the clone functions clear and rebuild for the destination (bone pointers) is rebuilt "
+                           "through a lookup of the class that declares the array, not of one of its subclasses: otherwise clones of "
+                           "the sibling classes keep the source model's block numbers")
+    clone_fns = [f for f in F.fns.values() if f.get("cls") == NIF and f["short"].startswith("Clone") and f.get("body") and f.get("tmpl") != "pattern"]
+    clone_fns += [g for g in F.fns.values() if g.get("lambda_parent") in {f["id"] for f in clone_fns}]
+    n6 = 0
+    for fn in sorted(clone_fns, key=lambda f: f["id"]):
+        vtypes = {}
+        for d in walk(fn["body"]):
+            vs = d.get("vars", []) if d["k"] == "Decl" else ([d["var"]] if d["k"] in ("If", "While") and d.get("var") else [])
+            for v in vs:
+                vtypes[v["id"]] = (v.get("ct") or v.get("t") or "").replace("const ", "").replace("*", "").replace("&", "").strip()
+        seen6 = set()
+        for n in walk(fn["body"]):
+            if not (n["k"] == "Call" and n.get("short") in ("Clear", "AddBlockRef", "SetBlockRef") and is_node(n.get("recv"))):
+                continue
+            m = n["recv"]
+            while is_node(m) and m["k"] == "Cast":
+                m = m["e"]
+            if not (is_node(m) and m["k"] == "Member" and "NiBlock" in (m.get("ct") or m.get("t") or "") and is_node(m.get("base"))):
+                continue
+            b = m["base"]
+            while is_node(b) and b["k"] in ("Cast",):
+                b = b["e"]
+            if not (is_node(b) and b["k"] == "Ref" and b.get("id") in vtypes):
+                continue
+            owner, T = m.get("owner"), vtypes[b["id"]]
+            if (owner, m["name"], T) in seen6 or T not in F.recs or owner not in F.recs:
+                continue
+            seen6.add((owner, m["name"], T))
+            skipped = []
+            if T != owner and F.derives_from(T, owner):
+                skipped = [c for c in F.descendants(owner) if c != T and not F.derives_from(c, T) and not F.recs[c].get("abstract")
+                           and c in set(c11.factory_types(F))]
+            n6 += 1
+            chk.instance(R6, ok=not skipped, sample={"fn": fn["name"].split("(")[0][-60:], "array": "%s::%s" % (owner, m["name"]),
+                                                     "rebuilt_through": T})
+            if skipped:
+                chk.violation("R14.6", "C14/R14.6:%s::%s" % (owner, m["name"]), where(fn, n),
+                              "%s rebuilds %s::%s only for blocks of type %s; clones of %s keep the source model's block numbers in "
+                              "that array" % (fn["name"].split("(")[0], owner, m["name"], T, ", ".join(c.split("::")[-1] for c in skipped[:4])))
+    chk.floor(R6, 1)
 
     chk.assumptions += ["taint is tracked through locals, range-for variables and lambda captures; distinct objects are assumed not to "
                         "alias (Appendix A); a same-model clone (srcNif == this) necessarily adds blocks to that model",
